@@ -2,7 +2,8 @@
 from fractions import Fraction
 from .. import terms, nf
 from .. import catalogue as cat
-from ..ast import strip, flat_stmts, calls, nodes, is_param, is_local, is_this_member, full_container_loop, assigned_in, show, int_value
+from .. import api, loops
+from ..ast import whole_container_traversal, strip, flat_stmts, calls, nodes, is_param, is_local, is_this_member, full_container_loop, assigned_in, show, int_value
 from ..ir import walk
 from ..report import AnalysisBroken
 
@@ -60,63 +61,72 @@ def run(ctx, prog):
             E = terms.Evaluator(prog, scalar=scalar, noreturn=('masa_exit',), opaque=('return_name',))
             outs = E.run(f[0])
             return f[0], outs, E
-        # ---- S1 scalars
+        # ---- S1 scalars: every path is classified by what its condition says about the name being registered
+        from ..ownership import lookup_fact
+
+        def lookup_state(o, mp, key):
+            fs = [lookup_fact(c, mp) for c in o.conds]
+            st = set(f_[1] for f_ in fs if f_ is not None and f_[0] == ('sym', key))
+            return None if len(st) != 1 else st.pop()
         for fn_name, arr, mp in (('set_var', 'vararr', 'varmap'), ('set_vec', 'vecarr', 'vecmap')):
             f, outs, E = paths(fn_name)
             key = f.params[0]['n']
             val = f.params[1]['n']
-            nf_paths = [o for o in outs if o.conds and not_found_cond(o.conds[0], mp, key)]
-            f_paths = [o for o in outs if o.conds and o.conds[0][0] == 'not' and not_found_cond(o.conds[0][1], mp, key)]
-            ok = len(nf_paths) == 1 and len(f_paths) == 1 and len(outs) == 2
-            why = 'does not split on %s.find(%s) == %s.end()' % (mp, key, mp)
-            if ok:
-                o = nf_paths[0]
-                st = [e for e in o.events if e[0] in ('write', 'write-through')]
-                if st:
-                    ok, why = False, 'not-found path stores to %s' % terms.fmt(st[0][1])[:60] if isinstance(st[0][1], tuple) else str(st[0][1])
-                elif not (o.ret and o.ret[0] == 'num' and o.ret[1] != 0):
-                    ok, why = False, 'not-found path returns %s, expected non-zero' % (terms.fmt(o.ret) if o.ret else None)
-            if ok:
-                o = f_paths[0]
-                st = [e for e in o.events if e[0] in ('write', 'write-through')]
-                good = len(st) == 1 and st[0][0] == 'write-through' and st[0][1][0] == 'elem' and st[0][1][1] == ('sym', arr) and \
-                    mapped_index(st[0][1][2], mp, key)
-                if not good:
-                    ok, why = False, 'found path does not perform exactly one store through %s[found->second] (events: %s)' % (
-                        arr, [terms.fmt(e[1])[:50] if isinstance(e[1], tuple) else e[1] for e in st])
-                elif not (o.ret and o.ret == terms.num(0)):
-                    ok, why = False, 'found path returns %s, expected 0' % terms.fmt(o.ret)
-            # the stored value: check on IR that the rhs is the value parameter unchanged
-            if ok:
-                stored = None
-                for n in walk(f.body):
-                    if n.get('k') == 'bin' and n['op'] == '=' and strip(n['a'], casts=True).get('k') == 'un':
-                        stored = n['b']
-                    if n.get('k') == 'call' and n.get('opcall') and n.get('n') == 'operator=' and strip(n['args'][0], casts=True).get('k') == 'un':
-                        stored = n['args'][1]
-                if stored is None or not is_param(strip(stored, casts=True), 1):
-                    ok, why = False, 'stored value is `%s`, expected the parameter `%s` unchanged' % (show(stored) if stored else None, val)
-            ctx.ob('C11.S1', '%s|%s' % (fn_name, sc), ok, f.where, '%s: %s' % (fn_name, why), sample='%s: find -> *%s[it->second] = %s / return 1' % (fn_name, arr, val))
+            probs = []
+            seen = set()
+            for o in outs:
+                if o.kind == 'exit':
+                    probs.append('a path ends in masa_exit')
+                    continue
+                st_ = lookup_state(o, mp, key)
+                seen.add(st_)
+                stores = [e for e in api.flat(o.events) if e[0] in ('write', 'write-through', 'store')]
+                if st_ is None:
+                    probs.append('a path returns %s without consulting %s.find(%s) (conditions %s)' % (terms.fmt(o.ret)[:30] if o.ret else None, mp, key, [terms.fmt(c)[:50] for c in o.conds][:2]))
+                elif st_ is False:
+                    if stores:
+                        probs.append('the not-registered path stores to %s' % (terms.fmt(stores[0][1])[:60] if isinstance(stores[0][1], tuple) else str(stores[0][1])))
+                    elif not (o.ret and o.ret[0] == 'num' and o.ret[1] != 0):
+                        probs.append('the not-registered path returns %s, expected non-zero' % (terms.fmt(o.ret) if o.ret else None))
+                else:
+                    good = len(stores) == 1 and stores[0][0] == 'write-through' and stores[0][1][0] == 'elem' and stores[0][1][1] == ('sym', arr) and mapped_index(stores[0][1][2], mp, key)
+                    if not good:
+                        probs.append('the registered path does not perform exactly one store through %s[found->second] (stores: %s)' % (
+                            arr, [terms.fmt(e[1])[:50] if isinstance(e[1], tuple) else e[1] for e in stores]))
+                    elif len(stores[0]) < 4 or stores[0][3] != ('sym', val):
+                        probs.append('the stored value is `%s`, expected the parameter `%s` unchanged' % (terms.fmt(stores[0][3])[:60] if len(stores[0]) > 3 else '?', val))
+                    elif not (o.ret and o.ret == terms.num(0)):
+                        probs.append('the registered path returns %s, expected 0' % (terms.fmt(o.ret) if o.ret else None))
+            if not probs and seen != {True, False}:
+                probs.append('does not split on %s.find(%s) == %s.end()' % (mp, key, mp))
+            ctx.ob('C11.S1', '%s|%s' % (fn_name, sc), not probs, f.where, '%s: %s' % (fn_name, '; '.join(probs[:2])), sample='%s: find -> *%s[it->second] = %s / return 1' % (fn_name, arr, val))
         f, outs, E = paths('get_var')
         key = f.params[0]['n']
-        ok, why = len(outs) == 2, 'does not split on varmap.find(name) == end()'
+        probs = []
+        seen = set()
         for o in outs:
-            if not ok:
-                break
-            if any(e[0] in ('write', 'write-through') for e in o.events):
-                ok, why = False, 'get_var stores'
-            elif o.conds and not_found_cond(o.conds[0], 'varmap', key):
-                p = nf.nf(o.ret) if o.ret else {}
-                if p != nf.const_poly(-20):
-                    ok, why = False, 'unknown name returns %s, expected -20' % (terms.fmt(o.ret) if o.ret else None)
-            elif o.conds and o.conds[0][0] == 'not' and not_found_cond(o.conds[0][1], 'varmap', key):
+            if o.kind == 'exit':
+                probs.append('a path ends in masa_exit')
+                continue
+            st_ = lookup_state(o, 'varmap', key)
+            seen.add(st_)
+            if any(e[0] in ('write', 'write-through', 'store') for e in api.flat(o.events)):
+                probs.append('get_var stores')
+            elif st_ is None:
+                probs.append('a path returns `%s` without consulting varmap.find(%s) (conditions %s): the value does not come from the current object\'s store' % (
+                    terms.fmt(o.ret)[:40] if o.ret else None, key, [terms.fmt(c)[:50] for c in o.conds][:2]))
+            elif st_ is False:
+                p_ = nf.nf(o.ret) if o.ret else {}
+                if p_ != nf.const_poly(-20):
+                    probs.append('unknown name returns %s, expected -20' % (terms.fmt(o.ret) if o.ret else None))
+            else:
                 r = o.ret
                 good = r and r[0] == 'deref' and r[1][0] == 'elem' and r[1][1] == ('sym', 'vararr') and mapped_index(r[1][2], 'varmap', key)
                 if not good:
-                    ok, why = False, 'found path returns %s, expected *vararr[found->second]' % (terms.fmt(r) if r else None)
-            else:
-                ok, why = False, 'unexpected path condition %s' % [terms.fmt(c)[:60] for c in o.conds]
-        ctx.ob('C11.S1', 'get_var|' + sc, ok, f.where, 'get_var: ' + why, sample='get_var: find -> return *vararr[it->second] / return -20')
+                    probs.append('registered name returns %s, expected *vararr[found->second]' % (terms.fmt(r)[:60] if r else None))
+        if not probs and seen != {True, False}:
+            probs.append('does not split on varmap.find(name) == end()')
+        ctx.ob('C11.S1', 'get_var|' + sc, not probs, f.where, 'get_var: ' + '; '.join(probs[:2]), sample='get_var: find -> return *vararr[it->second] / return -20')
         f, outs, E = paths('get_vec')
         key = f.params[0]['n']
         ok, why = len(outs) == 2, 'does not split on vecmap.find(name) == end()'
@@ -161,76 +171,93 @@ def run(ctx, prog):
                         ok, why = False, '%s.push_back does not receive the registered address' % arr
             ctx.ob('C11.S2b', '%s|%s' % (fn_name, sc), ok, f.where, '%s: %s' % (fn_name, why), sample='%s: ++%s; %s[name]=%s; %s.push_back(addr)' % (fn_name, cnt, mp, cnt, arr))
 
-        # ---- S4 purge / sanity
+        # ---- S4 purge / sanity: read off the loop summaries (sa/loops.py)
         f = prog.find_method(B, 'purge_var')[0]
-        loops = [l for l in nodes(f.body, 'for')]
-        ok, why = False, 'no loop over the whole of varmap'
-        for l in loops:
-            it = full_container_loop(l, lambda o: is_this_member(o, 'varmap'))
-            if it is None or assigned_in(l['body'], it):
-                continue
-            E = terms.Evaluator(prog, scalar=scalar)
-            outs = E.run(f)
-            lev = [e for e in outs[0].events if e[0] == 'loop']
-            good = False
-            for e in lev:
-                for kind, conds, evs in e[1][1]:
-                    st = [x for x in evs if x[0] in ('write', 'write-through')]
-                    if not conds and len(st) == 1 and st[0][0] == 'write-through' and st[0][1][0] == 'elem' and st[0][1][1] == ('sym', 'vararr') and \
-                            mapped_index(st[0][1][2], 'varmap', loopvar=True):
-                        good = True
-            stored = [n['b'] for n in walk(l['body']) if n.get('k') == 'bin' and n['op'] == '=']
-            marker = len(stored) == 1 and strip(stored[0], casts=True).get('k') == 'global' and strip(stored[0], casts=True)['q'].endswith('::MASA_VAR_DEFAULT')
-            ok = good and marker
-            why = '' if ok else ('loop body does not store through vararr[it->second] unconditionally' if not good else 'stored value is `%s`, not MASA_VAR_DEFAULT' % show(stored[0]) if stored else 'no store')
-        ctx.ob('C11.S4', 'purge_var|' + sc, ok, f.where, 'purge_var: ' + why, sample='for it in varmap: *vararr[it->second] = MASA_VAR_DEFAULT')
-        f = prog.find_method(B, 'sanity_check')[0]
-        full = {}
-        for l in nodes(f.body, 'for'):
-            for mp in ('varmap', 'vecmap'):
-                it = full_container_loop(l, lambda o, mp=mp: is_this_member(o, mp))
-                if it is not None and not assigned_in(l['body'], it):
-                    full[mp] = l
-        ok = set(full) == {'varmap', 'vecmap'}
-        why = 'does not loop over the whole of varmap and vecmap (found %s)' % sorted(full)
-        if ok:
-            # flag: one local incremented exactly under the two tests; return depends on flag != 0
-            incs = []
-            for mp, l in full.items():
-                ifs = [n for n in nodes(l['body'], 'if')]
-                inc_here = [n for n in walk(l['body']) if (n.get('k') == 'bin' and n['op'] == '+=') or (n.get('k') == 'un' and n['op'] == '++')]
-                if len(ifs) != 1 or len(inc_here) != 1 or not any(n is inc_here[0] for n in walk(ifs[0]['then'])):
-                    ok, why = False, 'loop over %s does not increment the flag under exactly one test' % mp
-                    break
-                cond = ifs[0]['c']
-                if mp == 'varmap':
-                    good = any(n.get('k') == 'global' and n['q'].endswith('::MASA_VAR_DEFAULT') for n in walk(cond)) and \
-                        any(n.get('k') == 'member' and n['n'] == 'vararr' for n in walk(cond))
+        E = terms.Evaluator(prog, scalar=scalar, noreturn=('masa_exit',))
+        outs = [o for o in E.run(f) if o.kind != 'exit']
+        probs = []
+        if len(outs) != 1:
+            probs.append('%d returning paths' % len(outs))
+        else:
+            tr = loops.traversals(outs[0].events, 'varmap')
+            full = [t for t in tr if t[0]]
+            if not full:
+                probs.append(tr[0][1] if tr else 'no loop over varmap')
+            for ok_, why_, ev, itn in full[:1]:
+                for kind, conds, evs, dl in loops.body_paths(ev):
+                    if kind == 'exit':
+                        continue
+                    st = [x for x in evs if x[0] in ('write', 'write-through', 'store')]
+                    good = len(st) == 1 and st[0][0] == 'write-through' and st[0][1][0] == 'elem' and st[0][1][1] == ('sym', 'vararr') and mapped_index(st[0][1][2], 'varmap', loopvar=True)
                     if not good:
-                        ok, why = False, 'scalar test `%s` does not compare *vararr[it->second] with the marker' % show(cond)[:80]
-                else:
-                    c = strip(cond, casts=True)
-                    good = c.get('k') == 'bin' and c['op'] == '==' and int_value(c['b']) == 0 and \
-                        strip(c['a'], casts=True).get('n') in ('size',)
-                    empty = c.get('k') == 'call' and c.get('n') == 'empty'
-                    if not (good or empty):
-                        ok, why = False, 'vector test `%s` is not size()==0' % show(cond)[:80]
-                t = strip(inc_here[0]['a'] if inc_here[0]['k'] == 'bin' else inc_here[0]['e'], casts=True)
-                incs.append(t.get('id'))
-            if ok and len(set(incs)) != 1:
-                ok, why = False, 'the two loops count into different variables'
-            if ok:
-                E = terms.Evaluator(prog, scalar=scalar, noreturn=('masa_exit',))
-                outs = [o for o in E.run(f) if o.kind == 'ret']
-                vals = {}
-                for o in outs:
-                    c = o.conds[-1] if o.conds else None
-                    vals[repr(o.ret)] = c
-                nz = [o for o in outs if o.ret and o.ret[0] == 'num' and o.ret[1] != 0]
-                z = [o for o in outs if o.ret == terms.num(0)]
-                if not (len(nz) == 1 and len(z) == 1 and nz[0].conds[-1][0] == 'cmp' and nz[0].conds[-1][1] == '!=' and z[0].conds[-1][0] == 'not'):
-                    ok, why = False, 'return value is not (flag != 0 ? non-zero : 0)'
-        ctx.ob('C11.S4', 'sanity_check|' + sc, ok, f.where, 'sanity_check: ' + why, sample='flag counts marker scalars and empty vectors over both maps; return flag != 0')
+                        probs.append('a path through the loop body%s does not store through vararr[it->second] exactly once' % (' (under %s)' % terms.fmt(conds[0])[:50] if conds else ''))
+                    elif len(st[0]) < 4 or st[0][3] != ('sym', 'const:MASA_VAR_DEFAULT'):
+                        probs.append('the stored value is `%s`, not MASA_VAR_DEFAULT' % (terms.fmt(st[0][3])[:50] if len(st[0]) > 3 else '?'))
+        ctx.ob('C11.S4', 'purge_var|' + sc, not probs, f.where, 'purge_var: ' + '; '.join(probs[:2]), sample='for it in varmap: *vararr[it->second] = MASA_VAR_DEFAULT')
+        f = prog.find_method(B, 'sanity_check')[0]
+        E = terms.Evaluator(prog, scalar=scalar, noreturn=('masa_exit',))
+        outs = [o for o in E.run(f) if o.kind == 'ret']
+        probs = []
+        if not outs:
+            probs.append('no returning path')
+        for o in outs[:1]:
+            flags = set()
+            for mp, arr in (('varmap', 'vararr'), ('vecmap', 'vecarr')):
+                tr = loops.traversals(o.events, mp)
+                full = [t for t in tr if t[0]]
+                if not full:
+                    probs.append((tr[0][1] if tr else 'no loop over %s' % mp))
+                    continue
+                for kind, conds, evs, dl in loops.body_paths(full[0][2]):
+                    if kind == 'exit':
+                        continue
+                    incs = [k_ for k_, v_ in dl.items() if v_[0] == 'add' and len(v_[1]) == 2 and v_[1][1] == terms.num(1) and v_[1][0][0] == 'call' and v_[1][0][1] == 'loopvar']
+                    incs = [k_ for k_ in incs if k_ != full[0][3]]
+                    flags |= set(incs)
+                    test = None
+                    for c in conds:
+                        neg = False
+                        while c[0] == 'not':
+                            neg = not neg
+                            c = c[1]
+                        if mp == 'varmap':
+                            sy = terms.syms(c)
+                            if 'const:MASA_VAR_DEFAULT' in sy and arr in sy and c[0] == 'cmp' and c[1] in ('<', '<=', '>', '>='):
+                                lhs_abs = c[2][0] == 'call' and c[2][1] in ('abs', 'fabs')
+                                rhs_abs = c[3][0] == 'call' and c[3][1] in ('abs', 'fabs')
+                                if lhs_abs != rhs_abs:
+                                    close = (c[1] in ('<', '<=')) == lhs_abs
+                                    test = close != neg
+                        else:
+                            if c[0] == 'mcall' and c[2] == 'empty' and arr in terms.syms(c):
+                                test = not neg
+                            elif c[0] == 'cmp' and c[1] in ('==', '!=') and arr in terms.syms(c) and any(x[0] == 'size' for x in terms.subterms(c)) and terms.num(0) in (c[2], c[3]):
+                                test = (c[1] == '==') != neg
+                    if test is None:
+                        probs.append('a path through the %s loop is not decided by the %s test' % (mp, 'marker' if mp == 'varmap' else 'empty-vector'))
+                    elif bool(incs) != test:
+                        probs.append('the %s loop %s the counter when the %s' % (mp, 'increments' if incs else 'does not increment',
+                                                                                  ('value is the marker' if test else 'value differs from the marker') if mp == 'varmap' else ('vector is empty' if test else 'vector is not empty')))
+            if not probs and len(flags) != 1:
+                probs.append('the two loops count into %s' % (sorted(flags) or 'nothing'))
+            if not probs:
+                flag = '@loop:' + sorted(flags)[0]
+                for cs2, r2 in terms.split_ite(o.conds, o.ret):
+                    verdict = None
+                    for c in cs2:
+                        neg = False
+                        while c[0] == 'not':
+                            neg = not neg
+                            c = c[1]
+                        if c[0] == 'cmp' and c[1] in ('!=', '>', '==') and flag in terms.syms(c) and terms.num(0) in (c[2], c[3]):
+                            verdict = (c[1] != '==') != neg
+                    if verdict is None:
+                        probs.append('the return value `%s` does not depend on the counter' % terms.fmt(r2)[:40])
+                    elif verdict and not (r2[0] == 'num' and r2[1] != 0):
+                        probs.append('returns `%s` when the counter is non-zero' % terms.fmt(r2)[:40])
+                    elif not verdict and r2 != terms.num(0):
+                        probs.append('returns `%s` when the counter is zero' % terms.fmt(r2)[:40])
+        ctx.ob('C11.S4', 'sanity_check|' + sc, not probs, f.where, 'sanity_check: ' + '; '.join(probs[:2]), sample='flag counts marker scalars and empty vectors over both maps; return flag != 0')
 
         # ---- S5
         ctor = [f for f in prog.methods_of(B) if f.get('ctor')]
